@@ -166,6 +166,7 @@ fn check_cff(m: &CffM, rec: &mut Rec) -> CaseResult {
         CharsetM::F2(_) => "cff:charset-format2",
     });
     rec.class_if(m.hdr_extra > 0, "cff:hdrSize>4");
+    rec.class_if(m.short_offsets, "cff:offsets-in-shortest-integer-form");
     rec.class_if(m.index_off_size > 0, "cff:non-minimal-offSize");
     rec.set_nontrivial(m.charstrings.len() >= 2);
     rec.hash_bytes(&raw);
@@ -248,7 +249,8 @@ fn cff_strategy() -> impl Strategy<Value = CffM> {
                 KindM::Cid { ros: (391, 392, 0), fds, fdselect }
             };
             // a Top DICT that starts with SyntheticBase is not implemented by the reader; TOP_OPS has none
-            CffM { minor, hdr_extra, hdr_off_size, name, strings, gsubrs, top, charstrings, charset, kind, index_off_size }
+            let short_offsets = minor % 2 == 1;
+            CffM { minor, hdr_extra, hdr_off_size, name, strings, gsubrs, top, charstrings, charset, kind, index_off_size, short_offsets }
         })
 }
 
@@ -256,8 +258,8 @@ fn cff_strategy() -> impl Strategy<Value = CffM> {
 
 fn ivs_strategy() -> impl Strategy<Value = IvsM> {
     let coord = prop_oneof![2 => proptest::sample::select(vec![-16384i16, -8192, 0, 8192, 16384]), 1 => -16384i16..=16384];
-    (1u16..4, proptest::collection::vec(proptest::collection::vec((coord.clone(), coord.clone(), coord), 3), 1..5), proptest::collection::vec((proptest::collection::vec(any::<u16>(), 0..5), any::<u16>(), proptest::bool::weighted(0.3), proptest::collection::vec(proptest::collection::vec(any::<i32>(), 5), 0..4)), 0..4), any::<bool>())
-        .prop_map(|(axis_count, raw_regions, raw_subs, regions_last)| {
+    (1u16..4, proptest::collection::vec(proptest::collection::vec((coord.clone(), coord.clone(), coord), 3), 1..5), proptest::collection::vec((proptest::collection::vec(any::<u16>(), 0..5), any::<u16>(), proptest::bool::weighted(0.3), proptest::collection::vec(proptest::collection::vec(any::<i32>(), 5), 0..4)), 0..4), 0u8..4)
+        .prop_map(|(axis_count, raw_regions, raw_subs, layout)| {
             let regions: Vec<Vec<(i16, i16, i16)>> = raw_regions
                 .into_iter()
                 .map(|r| {
@@ -303,7 +305,14 @@ fn ivs_strategy() -> impl Strategy<Value = IvsM> {
                     IvdM { region_indexes, word_count, long, rows }
                 })
                 .collect();
-            IvsM { axis_count, regions, subtables, regions_last }
+            let mut subtables: Vec<IvdM> = subtables;
+            // make identical sub-tables likely when sharing is requested
+            if layout & 2 == 2 && subtables.len() >= 2 {
+                let first = subtables[0].clone();
+                let last = subtables.len() - 1;
+                subtables[last] = first;
+            }
+            IvsM { axis_count, regions, subtables, layout }
         })
 }
 
@@ -335,7 +344,7 @@ fn ivs_adjustments(s: &ItemVariationStore<'_>, m: &IvsM, fvar: &FvarTable<'_>) -
 
 fn check_ivs(m: &IvsM, rec: &mut Rec) -> CaseResult {
     let raw = enc_ivs(m);
-    let want = IvsM { regions_last: false, ..m.clone() };
+    let want = IvsM { layout: 0, ..m.clone() };
     if dec_ivs(&raw).as_ref() != Ok(&want) {
         return Err(crate::engine::Fail::new("harness:cffgen-selfcheck", format!("IVS encoder/decoder disagree: {:?} vs {:?}", dec_ivs(&raw), want)));
     }
@@ -377,7 +386,8 @@ fn check_ivs(m: &IvsM, rec: &mut Rec) -> CaseResult {
     rec.class("ivs");
     rec.class_if(m.subtables.iter().any(|s| s.long), "ivs:long-deltas");
     rec.class_if(m.subtables.len() >= 2, "ivs:several-subtables");
-    rec.class_if(m.regions_last, "ivs:region-list-last");
+    rec.class_if(m.layout & 1 == 1, "ivs:region-list-last");
+    rec.class_if(m.layout & 2 == 2 && m.subtables.len() >= 2, "ivs:sub-tables-share-one-copy");
     rec.set_nontrivial(m.subtables.iter().any(|s| !s.rows.is_empty()));
     rec.hash_bytes(&raw);
     Ok(())
